@@ -280,3 +280,65 @@ def font_table_facts(index):
 
 
 TABLES = TABLES + [TableUnit("font_table", font_table_facts)]
+
+
+# ---- document colour context: established once per encode, for the user's document (frame scan on the real AST) ---------------------------
+def colour_context_sites(index):
+    """Reachable call sites of set_document_context / clear_document_context and stores to the context outside color_service.py.
+    Statements after a return / raise in the same block are unreachable and not counted."""
+    import ast, os
+    sites = []
+    root = os.path.join(index.src, "rtflite") if hasattr(index, "src") and not index.src.endswith("rtflite") else index.src
+    for dirpath, _, files in os.walk(root):
+        for fn in files:
+            if not fn.endswith(".py"):
+                continue
+            path = os.path.join(dirpath, fn)
+            rel = os.path.relpath(path, root)
+            if rel == os.path.join("services", "color_service.py"):
+                continue
+            tree = ast.parse(open(path, encoding="utf-8").read())
+
+            def visit_block(stmts, owner):
+                for s in stmts:
+                    if isinstance(s, (ast.FunctionDef, ast.AsyncFunctionDef)):
+                        visit_block(s.body, (owner + "." if owner else "") + s.name)
+                        continue
+                    if isinstance(s, ast.ClassDef):
+                        visit_block(s.body, (owner + "." if owner else "") + s.name)
+                        continue
+                    for sub in ("body", "orelse", "finalbody"):
+                        blk = getattr(s, sub, None)
+                        if isinstance(blk, list) and blk and isinstance(blk[0], ast.stmt):
+                            visit_block(blk, owner)
+                    for h in getattr(s, "handlers", []) or []:
+                        visit_block(h.body, owner)
+                    # expressions of this statement itself (not of nested blocks)
+                    shallow = [n for n in ast.iter_child_nodes(s) if not isinstance(n, ast.stmt) and not isinstance(n, ast.ExceptHandler)]
+                    for top in shallow:
+                        for n in ast.walk(top):
+                            if isinstance(n, ast.Call) and isinstance(n.func, ast.Attribute) and n.func.attr in ("set_document_context", "clear_document_context"):
+                                sites.append((rel, owner, n.func.attr, s.lineno))
+                            if isinstance(n, ast.Attribute) and n.attr in ("_current_document_colors", "_DOCUMENT_COLORS") and isinstance(getattr(n, "ctx", None), ast.Store):
+                                sites.append((rel, owner, "store:" + n.attr, s.lineno))
+                            if isinstance(n, ast.Name) and n.id == "_DOCUMENT_COLORS":
+                                sites.append((rel, owner, "use:_DOCUMENT_COLORS", s.lineno))
+                    if isinstance(s, (ast.Return, ast.Raise)):
+                        break
+            visit_block(tree.body, "")
+    return sites
+
+
+def colour_context_table(index):
+    sites = colour_context_sites(index)
+    enc = os_join = None
+    allowed_owner = "UnifiedRTFEncoder.encode"
+    foreign = [s for s in sites if not (s[0].replace("\\", "/") == "encoding/unified_encoder.py" and s[1] == allowed_owner)]
+    own = [s for s in sites if s not in foreign]
+    yield ("C12.document_colour_context_is_established_only_by_encode_for_its_document", not foreign,
+           {"foreign_sites": [list(s) for s in foreign[:6]], "input": {"site": list(foreign[0])} if foreign else None})
+    yield ("C12.encode_sets_the_context_once_and_clears_it_once", sorted(s[2] for s in own) == ["clear_document_context", "set_document_context"],
+           {"sites": [list(s) for s in own]})
+
+
+TABLES = TABLES + [TableUnit("colour_context_frame", colour_context_table)]
